@@ -33,6 +33,10 @@ func main() {
 	switch prop {
 	case "C01":
 		checkC01()
+	case "C02":
+		runRuntime(checkC02())
+	case "C03":
+		runRuntime(checkC03())
 	case "gen-sample":
 		// debugging aid: print the DSL of a few specs
 		run := vc.New("sample")
@@ -221,7 +225,9 @@ func checkC01() {
 				run.Sample(map[string]any{"features": d.Spec.Features, "files": len(d.Sums), "dsl_head": head(d.DSL, 600)})
 			}
 		}
-		os.RemoveAll(dir)
+		if os.Getenv("VERIF_KEEP") == "" {
+			os.RemoveAll(dir)
+		}
 	}
 	if len(rejects) > 0 {
 		keys := make([]string, 0, len(rejects))
